@@ -101,6 +101,116 @@ with vterm vinv unfh fin :=
   | |- _ => fin
   end.
 
+(* ---------- the same for obligation terms ---------- *)
+(* Goal  t = true  where t is a generated obligation term:
+     a1 && (let x1 := v1 in a2 && (let x2 := v2 in ... tl))
+   All bindings of the chain are posed, the goal becomes  a1 && (a2 && (... && tl)) = true  in ONE unchecked step,
+   then the definitions are visited in program order (a let-bound continuation k := fun u => body gets the
+   specification  forall u, kinv u -> k u = true,  a loop result its loop invariant, an array its shape), and finally
+   the conjuncts and the tail (a conditional, a loop, a continuation call) are proved.  Parameters as for `okw`. *)
+Ltac opeel t acc obs k :=
+  lazymatch t with
+  | andb ?a ?b => opeel b acc constr:((obs, a)) k
+  | (let x := ?v in @?F x) =>
+      let x' := fresh "v" in
+      pose (x' := v);
+      let b := eval cbv beta in (F x') in
+      opeel b constr:((acc, x')) obs k
+  | _ => k t acc obs
+  end.
+Ltac mk_conj obs tl :=
+  lazymatch obs with
+  | (?rest, ?a) => mk_conj rest constr:(andb a tl)
+  | _ => tl
+  end.
+Ltac triv_k2 :=
+  lazymatch goal with
+  | |- true = true => reflexivity
+  | |- (let x := ?v in @?F x) = true =>
+      let x' := fresh "v" in
+      pose (x' := v); (let b := eval cbv beta in (F x') in change_no_check (b = true)); clearbody x'; triv_k2
+  end.
+
+Ltac okregion kinv linv post unfh isolve istep leaf :=
+  lazymatch goal with |- ?t = true =>
+    let t' := eval cbv beta in t in
+    opeel t' constr:(I) constr:(I) ltac:(fun tl acc obs =>
+      let c := mk_conj obs tl in
+      change_no_check (c = true);
+      odefs kinv linv post unfh isolve istep leaf acc;
+      oconj kinv linv post unfh isolve istep leaf)
+  end
+with odefs kinv linv post unfh isolve istep leaf acc :=
+  lazymatch acc with
+  | (?rest, ?x) => odefs kinv linv post unfh isolve istep leaf rest; oproc kinv linv post unfh isolve istep leaf x
+  | _ => idtac
+  end
+with oproc kinv linv post unfh isolve istep leaf x :=
+  let v := eval cbv delta [x] in x in
+  let tv := type of x in
+  lazymatch tv with
+  | ?A -> bool =>
+      let Hk := fresh "Hk" in
+      tryif (assert (Hk : forall u, x u = true)
+               by (let u := fresh "u" in intro u;
+                   (let b := eval cbv beta in (v u) in change_no_check (b = true)); triv_k2))
+      then clearbody x
+      else (let Pk := kinv A in
+            assert (Hk : forall u, Pk u -> x u = true)
+              by (let u := fresh "u" in let Hu := fresh "Hu" in
+                  intros u Hu; unfh Hu; norm_hyps;
+                  (let b := eval cbv beta in (v u) in change_no_check (b = true));
+                  okregion kinv linv post unfh isolve istep leaf);
+            clearbody x)
+  | _ =>
+      lazymatch v with
+      | for_list _ _ ?st =>
+          let S := type of st in
+          let Pinv := linv S in
+          let Sx := fresh "Sx" in
+          assert (Sx : Pinv x) by (change_no_check (Pinv v); isolve);
+          clearbody x; unfh Sx; norm_hyps
+      | _ =>
+          let Hx := fresh "Hx" in
+          pose proof (eq_refl : x = v) as Hx; clearbody x; post x Hx v
+      end
+  end
+with oconj kinv linv post unfh isolve istep leaf :=
+  lazymatch goal with
+  | |- andb ?a ?b = true =>
+      refine (andb_intro2 a b _ _);
+      [ okregion kinv linv post unfh isolve istep leaf | oconj kinv linv post unfh isolve istep leaf ]
+  | |- _ => oterm kinv linv post unfh isolve istep leaf
+  end
+with oterm kinv linv post unfh isolve istep leaf :=
+  lazymatch goal with
+  | |- true = true => reflexivity
+  | |- (if ?c then ?a else ?b) = true =>
+      let c' := eval cbn [andb negb orb] in c in
+      lazymatch c' with
+      | true => change_no_check (a = true); okregion kinv linv post unfh isolve istep leaf
+      | false => change_no_check (b = true); okregion kinv linv post unfh isolve istep leaf
+      | context [Z.eqb ?p ?q] =>
+          let E := fresh "E" in
+          destruct (Z.eqb p q) eqn:E; [ apply Z.eqb_eq in E | apply Z.eqb_neq in E ];
+          use_imps; norm_hyps;
+          okregion kinv linv post unfh isolve istep leaf
+      | _ => let E := fresh "E" in destruct c eqn:E; bool_hyps_ns; okregion kinv linv post unfh isolve istep leaf
+      end
+  | |- for_list_ok _ _ _ ?st = true =>
+      let S := type of st in
+      let Pinv := linv S in
+      let s := fresh "s" in let Hs := fresh "Hs" in let Hi := fresh "Hi" in
+      apply (for_list_ok_inv Pinv);
+      [ isolve
+      | intros ? s Hi Hs; split;
+        [ istep s | unfh Hs; norm_hyps; okregion kinv linv post unfh isolve istep leaf ] ]
+  | |- obD false _ = true => reflexivity
+  | Hk : forall u, ?k u = true |- ?k _ = true => apply Hk
+  | Hk : forall u, _ -> ?k u = true |- ?k _ = true => apply Hk; isolve
+  | |- _ => leaf
+  end.
+
 Section P2ok.
 Context {T : Type} `{Num T}.
 
@@ -148,20 +258,46 @@ Proof.
   intros Hz Hx Hslow Htt Hg Hfl.
   cbv beta delta [fteik2d_p2_ok].
   destruct grad; norm_hyps.
-  - okw ltac:(fun A => lazymatch A with
+  - okregion ltac:(fun A => lazymatch A with
                        | (arr T * arr Z)%type => constr:(inv2 NZ NX true)
                        | arr Z => constr:(invs NZ NX true)
                        | arr T => constr:(invg NZ NX true)
                        end)
         ltac:(fun S => constr:(inv3 NZ NX true))
         let_post2 unfh2 isolve2 istep2 leaf2.
-  - okw ltac:(fun A => lazymatch A with
+  - okregion ltac:(fun A => lazymatch A with
                        | (arr T * arr Z)%type => constr:(inv2 NZ NX false)
                        | arr Z => constr:(invs NZ NX false)
                        | arr T => constr:(invg NZ NX false)
                        end)
         ltac:(fun S => constr:(inv3 NZ NX false))
         let_post2 unfh2 isolve2 istep2 leaf2.
+Qed.
+
+(* the initialisation keeps the shapes of the traveltime and gradient arrays *)
+Definition p2_shapes (NZ NX : Z) (g : bool) (r : arr T * arr T * arr Z) : Prop :=
+  shape (fst (fst r)) = [NZ; NX] /\ (g = true -> shape (snd (fst r)) = [NZ; NX; 2]).
+Lemma fteik2d_p2_shapes dx dz grad iflag NX NZ slow (tt G : arr T) (S : arr Z) vzero xsa xsi zsa zsi :
+  shape tt = [NZ; NX] -> (grad = true -> shape G = [NZ; NX; 2] /\ shape S = [NZ; NX; 2]) ->
+  p2_shapes NZ NX grad (fteik2d_p2 dx dz grad iflag NX NZ slow tt G S vzero xsa xsi zsa zsi).
+Proof.
+  intros Htt Hg.
+  lazymatch goal with |- p2_shapes ?a ?b ?g ?t =>
+    let t' := eval cbv beta delta [fteik2d_p2] in t in
+    lazymatch t' with (let u := (if ?c then ?x else ?y) in _) =>
+      change_no_check (p2_shapes a b g (if c then x else y)); destruct c end end;
+  (destruct grad; norm_hyps;
+   lazymatch goal with |- p2_shapes _ _ ?g _ =>
+     vregion ltac:(fun A => lazymatch A with
+                            | (arr T * arr T * arr Z)%type => constr:(inv3 NZ NX g)
+                            | (arr T * arr Z)%type => constr:(inv2 NZ NX g)
+                            end)
+             ltac:(fun Hh => unfold inv3, inv2, invg, invs in Hh; cbn [fst snd] in Hh)
+             ltac:(unfold p2_shapes, inv3, inv2, invg, invs, shp_is; cbn beta iota delta [fst snd];
+                   repeat split; rewrite ?shape_set, ?shape_set_sub; cbn [shape full fill];
+                   first [ assumption | reflexivity | intros _; assumption
+                         | let E := fresh "E" in intros E; discriminate E ])
+   end).
 Qed.
 
 End P2ok.
@@ -201,32 +337,6 @@ Proof.
   intros Hs Hz Hx. cbv beta iota zeta delta [fteik2d_p1_ok obD obI].
   rewrite (inb2_true slow nz nx _ _ Hs) by lia. cbn [andb fst snd].
   destruct grad; repeat match goal with |- context [if ?c then _ else _] => destruct c end; reflexivity.
-Qed.
-
-(* the initialisation keeps the shapes of the traveltime and gradient arrays *)
-Definition p2_shapes (NZ NX : Z) (g : bool) (r : arr T * arr T * arr Z) : Prop :=
-  shape (fst (fst r)) = [NZ; NX] /\ (g = true -> shape (snd (fst r)) = [NZ; NX; 2]).
-Lemma fteik2d_p2_shapes dx dz grad iflag NX NZ slow (tt G : arr T) (S : arr Z) vzero xsa xsi zsa zsi :
-  shape tt = [NZ; NX] -> (grad = true -> shape G = [NZ; NX; 2] /\ shape S = [NZ; NX; 2]) ->
-  p2_shapes NZ NX grad (fteik2d_p2 dx dz grad iflag NX NZ slow tt G S vzero xsa xsi zsa zsi).
-Proof.
-  intros Htt Hg.
-  lazymatch goal with |- p2_shapes ?a ?b ?g ?t =>
-    let t' := eval cbv beta delta [fteik2d_p2] in t in
-    lazymatch t' with (let u := (if ?c then ?x else ?y) in _) =>
-      change_no_check (p2_shapes a b g (if c then x else y)); destruct c end end;
-  (destruct grad; norm_hyps;
-   lazymatch goal with |- p2_shapes _ _ ?g _ =>
-     vregion ltac:(fun A => lazymatch A with
-                            | (arr T * arr T * arr Z)%type => constr:(inv3 NZ NX g)
-                            | (arr T * arr Z)%type => constr:(inv2 NZ NX g)
-                            end)
-             ltac:(fun Hh => unfold inv3, inv2, invg, invs in Hh; cbn [fst snd] in Hh)
-             ltac:(unfold p2_shapes, inv3, inv2, invg, invs, shp_is; cbn beta iota delta [fst snd];
-                   repeat split; rewrite ?shape_set, ?shape_set_sub; cbn [shape full fill];
-                   first [ assumption | reflexivity | intros _; assumption
-                         | let E := fresh "E" in intros E; discriminate E ])
-   end).
 Qed.
 
 Context `{!TruncLaws T}.
